@@ -8,6 +8,7 @@ pub mod c01pipe;
 pub mod c02;
 pub mod c02bp;
 pub mod c02h3;
+pub mod c02real;
 pub mod c02sess;
 pub mod c02socks;
 pub mod c02tick;
@@ -40,6 +41,7 @@ pub mod c17;
 pub mod c17stall;
 pub mod c18;
 pub mod c19;
+pub mod c19h3;
 pub mod c19proc;
 pub mod c19sess;
 pub mod frontdoor;
